@@ -705,7 +705,7 @@ class Interp:
                 allargs = [fn.self_ref] + allargs
             elif fn.self_ref is None and 'classmethod' in decos and fn.cls and not (
                     allargs and isinstance(allargs[0], tuple) and len(allargs[0]) == 2 and allargs[0][0] == 'class') \
-                    and len(allargs) + sum(1 for k_ in (kwargs or {}) if k_ in params) < len(params) - len(node.args.defaults):
+                    and len(allargs) + sum(1 for k_ in (kwargs or {}) if k_ in params[:len(params) - len(node.args.defaults)]) < len(params) - len(node.args.defaults):
                 # a class method taken from its class (the caller gave the arguments after `cls` only): the class is the first argument
                 allargs = [('class', fn.cls)] + allargs
             if node.args.vararg is not None:
@@ -1428,6 +1428,28 @@ class Interp:
             return chr(args[0])
         if isinstance(fn, ast.Name) and fn.id in ('max', 'min', 'sorted', 'sum') and fn.id not in env and args and isinstance(args[0], PyIter):
             args = [args[0].drain()] + list(args[1:])          # an iterator is walked once, whichever branch below takes the call
+        if isinstance(fn, ast.Attribute) and isinstance(fn.value, ast.Name) and fn.value.id == 'operator' and 'operator' not in env and not kwargs \
+                and fn.attr in ('lt', 'le', 'eq', 'ne', 'ge', 'gt', 'is_', 'is_not', 'contains', 'not_', 'truth', 'add', 'sub', 'mul', 'neg', 'getitem') \
+                and len(args) == (1 if fn.attr in ('not_', 'truth', 'neg') else 2):
+            # the functions of the operator module: the operator itself, on the same operands
+            a_, b_ = ast.Name(id='#a0', ctx=ast.Load()), ast.Name(id='#a1', ctx=ast.Load())
+            ops_ = {'lt': ast.Lt, 'le': ast.LtE, 'eq': ast.Eq, 'ne': ast.NotEq, 'ge': ast.GtE, 'gt': ast.Gt, 'is_': ast.Is, 'is_not': ast.IsNot}
+            if fn.attr in ops_:
+                node_ = ast.Compare(left=a_, ops=[ops_[fn.attr]()], comparators=[b_])
+            elif fn.attr == 'contains':
+                node_ = ast.Compare(left=b_, ops=[ast.In()], comparators=[a_])
+            elif fn.attr in ('not_', 'truth'):
+                return (not self.truth(args[0])) if fn.attr == 'not_' else self.truth(args[0])
+            elif fn.attr == 'neg':
+                node_ = ast.UnaryOp(op=ast.USub(), operand=a_)
+            elif fn.attr == 'getitem':
+                node_ = ast.Subscript(value=a_, slice=b_, ctx=ast.Load())
+            else:
+                node_ = ast.BinOp(left=a_, op={'add': ast.Add, 'sub': ast.Sub, 'mul': ast.Mult}[fn.attr](), right=b_)
+            env_ = {'#a0': args[0]}
+            if len(args) > 1:
+                env_['#a1'] = args[1]
+            return self.ev(ast.fix_missing_locations(ast.copy_location(node_, e)), env_, cls)
         if isinstance(fn, ast.Name) and fn.id == 'hash' and 'hash' not in env and 'hash' not in h.hooks and len(args) == 1 and not kwargs:
             # hash(x): of a decided text / number / tuple of such -- CPython's own (equal values, equal hashes, within this run); of an
             # object of the module -- its __hash__, else its identity
